@@ -212,7 +212,7 @@ class FamCtx:
                 os.unlink(e.path)
 
     def kidx(self, x):
-        for i, k in enumerate(self.fam.keys):
+        for i, k in enumerate(self.fam.all_keys):
             try:
                 if type(x).__name__ == type(k).__name__ or not hasattr(k, "to_tuple"):
                     if k == x:
@@ -266,6 +266,10 @@ def _got(fc, ki, x, raw):
     from lian.util.data_model import DataModel
     if x is None:
         return ["none"], None
+    if ki >= len(fc.fam.keys):          # a probe id: nothing was ever saved under it
+        if not isinstance(raw, DataModel) and isinstance(x, list) and len(x) == 0:
+            return ["notfound"], None
+        return ["item", "unknown"], "probe:" + repr(x)[:80]
     if not isinstance(raw, DataModel):
         if isinstance(x, list) and len(x) == 0:
             return ["notfound"], None
@@ -289,24 +293,24 @@ def loader_real(fc, cfg, ops):
     ld = fam.make(fc.ws, cfg["itemCap"], cfg["bundleCap"])
     printed = 0
     out = []
-    for op in ops:
+    for step, op in enumerate(ops):
         buf = io.StringIO()
         canon = None
         with contextlib.redirect_stdout(buf), contextlib.redirect_stderr(io.StringIO()):
             try:
                 kind = op[0]
                 if kind == "save":
-                    ld.save(fam.keys[op[1]], fam.build(op[2], fam.keys[op[1]])); o = None
+                    ld.save(fam.spell(op[1], step), fam.build(op[2], fam.keys[op[1]])); o = None
                 elif kind == "get":
-                    o, canon = _got(fc, op[1], *_spy_get(ld, fam.keys[op[1]]))
+                    o, canon = _got(fc, op[1], *_spy_get(ld, fam.spell(op[1], step)))
                 elif kind == "contain":
-                    o = bool(ld.contain(fam.keys[op[1]]))
+                    o = bool(ld.contain(fam.spell(op[1], step)))
                 elif kind == "export":
                     ld.export(); o = None
                 elif kind == "export_indexing":
                     ld.export_indexing(); o = None
                 elif kind == "remove":
-                    ld.remove_unit_id(fam.keys[op[1]]); o = "ok"
+                    ld.remove_unit_id(fam.spell(op[1], step)); o = "ok"
                 elif kind == "restore":
                     ld = fam.make(fc.ws, cfg["itemCap"], cfg["bundleCap"]); ld.restore_indexing(); o = None
                 elif kind == "reopen":
@@ -452,7 +456,7 @@ def files_check(fc, cfg, spec, ld):
             continue
         with contextlib.redirect_stdout(io.StringIO()), contextlib.redirect_stderr(io.StringIO()):
             try:
-                o, canon = _got(fc, k, *_spy_get(fresh, fam.keys[k]))
+                o, canon = _got(fc, k, *_spy_get(fresh, fam.spell(k, 0)))
             except SystemExit:
                 o, canon = ["quit"], None
             except Exception as e:
@@ -470,6 +474,8 @@ def gen_cfgs(tier):
 def loader_alphabet(fam, nk, values):
     a = [["save", k, j] for k in range(nk) for j in values] + [["get", k] for k in range(nk)] + \
         [["export"], ["export_indexing"], ["reopen"], ["contain", 0]]
+    if fam.name == "callee_parameter_mapping" and fam.probe_keys:
+        a += [["get", len(fam.keys)]]          # the tuple twin of the first call site
     if fam.group == "unit-level" and fam.name in ("scope_hierarchy", "gir"):
         a += [["remove", 0]]
     return a
@@ -483,6 +489,10 @@ def random_history(fam, rng):
     for _ in range(n):
         r = rng.random()
         k = rng.randrange(nk) if rng.random() < 0.8 else 0
+        if r >= 0.40 and fam.probe_keys and rng.random() < 0.08:
+            k = nk + rng.randrange(len(fam.probe_keys))          # read of an id that was never saved (twin of a saved one)
+            h.append(["get", k] if rng.random() < 0.7 else ["contain", k])
+            continue
         if r < 0.40: h.append(["save", k, rng.randrange(fam.npool)])
         elif r < 0.75: h.append(["get", k])
         elif r < 0.83: h.append(["export"])
@@ -493,6 +503,26 @@ def random_history(fam, rng):
         else: h.append(["remove", k])
     cfg = {"maxRows": rng.choice([1, 2, 3, 4, 6, 1000]), "itemCap": rng.randint(1, 3), "bundleCap": rng.randint(1, 3)}
     return cfg, h
+
+
+def directed_histories(fam):
+    """Deterministic histories run right after the corpus, for every family: every id of the alphabet (with the fixed pool
+    item 1..4 cycling) lands in ONE bundle; then each id is read with the item cache too small to help — from the cached
+    bundle, from the file after the bundle cache lost it, and from a reopened loader — interleaved with reads of the probe
+    ids.  This is the shape that exposes ids which collide inside a bundle (same hash_id / key column value)."""
+    nk, npr = len(fam.keys), len(fam.probe_keys)
+    saves = [["save", k, 1 + (k % (fam.npool - 1))] for k in range(nk)]
+    reads = [["get", k] for k in range(nk)] + [["get", nk + i] for i in range(npr)] + [["contain", nk + i] for i in range(npr)]
+    big = {"maxRows": 1000, "itemCap": 1, "bundleCap": 1}
+    hs = [(big, saves + [["export"]] + reads + [["reopen"]] + reads),
+          (big, saves + reads + [["export"]] + list(reversed(reads))),
+          # two bundles, bundle cache of one: every read alternates between files
+          (big, saves[:nk // 2] + [["export"]] + saves[nk // 2:] + [["export"]] + reads + reads),
+          # re-save of one id of a colliding pair after export, then read both
+          (big, saves + [["export"], ["save", 0, 2], ["get", 1], ["get", 0], ["export"], ["get", 1], ["get", 0], ["reopen"], ["get", 1], ["get", 0]])]
+    if fam.name in ("scope_hierarchy", "gir"):
+        hs.append((big, saves + [["export"], ["remove", 0]] + reads + [["reopen"]] + reads))
+    return hs
 
 
 def family_job(args):
@@ -518,6 +548,8 @@ def family_job(args):
             return {"family": label, "setup_failed": traceback.format_exc()[-1500:]}
         rng = random.Random(f"{seed}:{fam_name}")
         cases = [(c["cfg"], c["ops"]) for c in corpus if c.get("kind") == "loader" and c.get("family") in (fam_name, "*")]
+        if cfg_idx in (None, 0):
+            cases += directed_histories(fam)
         n_corpus = len(cases)
         # frozen-model witnesses: on these corpus histories the model of the pinned commit must still differ from the
         # model of the current code (the witness discriminates), and the current code must pass (checked below like any case)
@@ -1063,7 +1095,11 @@ def _run(ctx, proofs_ok, root):
     cov["exhaustive"] = True
     cov["rule"] = (
         "corpus first; lru: all histories of length<=%d over 15 ops x capacities 0..3 + random length 5-40; loader: per family "
-        "(%d families of GeneralLoader subclasses, real constructors, id alphabet 3, pool of 4 items + the empty item) all histories "
+        "(%d families of GeneralLoader subclasses, real constructors; id alphabet of 4 saved ids + read-only probe ids per family: ints 0, 1 (= bundle numbers), 3, a negative "
+        "64-bit context id, probes 2 and -1; for the call-site keyed family call sites differing only in callee / only in call "
+        "statement / only in caller, probes = the tuple twin of a saved call site, a third callee, the swapped call site; every id is "
+        "handed over in rotating equal spellings (int / numpy.int64, fresh CallSite, CallSite of numpy ints); pool of 4 items + the "
+        "empty item) directed histories (all ids in one bundle, each read served from bundle cache / file / reopened loader), all histories "
         "of length<=N over save x 2 ids x 3 values/get/export/export_indexing/reopen/contain(/remove_unit_id) for the families "
         "listed in loader_exhaustive_len (N=0: none), + random histories of length 5-25 with MAX_ROWS in {1,2,3,4,6,1000}, item/bundle "
         "cache capacities 1..3; maploader: all histories of length<=%d + random; roundtrip: every item saved during two real "
@@ -1078,6 +1114,8 @@ def _run(ctx, proofs_ok, root):
     cov["loader"] = {r["family"]: {k: r[k] for k in keep} for r in fam_results}
     cov["loader_exhaustive_len"] = {j[0]: j[5] for j in jobs}
     cov["loader_families"] = len(fams)
+    cov["loader_id_alphabets"] = {f.name: {"saved": [repr(k) for k in f.keys], "probes": [repr(k) for k in f.probe_keys]}
+                                  for f in fams if f.name in ("gir", "callee_parameter_mapping")}
     cov["loader_groups"] = sorted(set(f.group for f in fams))
     cov["facade"] = {"sub_loaders_with_export": n_sub, "not_reached_by_Loader.export": facade_missing}
     cov["roundtrip"] = []
